@@ -357,6 +357,9 @@ impl Space for Display {
 
 // ------------------------------------------------------------------------------------------------
 pub fn space(tier: Tier, id: &str) -> Option<Box<dyn Space>> {
+    if let Some(r) = reversed_of(id, |base| space(tier, base)) {
+        return r;
+    }
     match id {
         "days" => Some(Box::new(Days)),
         "seconds" => Some(Box::new(Seconds)),
@@ -370,7 +373,7 @@ fn replay(tier: Tier, case: &Value) -> Vec<Violation> {
 }
 
 fn run(ctx: &Ctx) -> i32 {
-    let ids = ["days", "seconds", "display"];
+    let ids: Vec<&'static str> = if ctx.tier == Tier::Thorough { vec!["days", "seconds", "display", "days~rev", "seconds~rev", "display~rev"] } else { vec!["days", "seconds", "display", "seconds~rev", "display~rev"] };
     let spaces = ids.iter().map(|id| (*id, space(ctx.tier, id).unwrap())).collect();
     let thorough = ctx.tier == Tier::Thorough;
     let total_days = days_from_civil(9999, 12, 31) - days_from_civil(1900, 1, 1) + 1;
